@@ -27,8 +27,8 @@
 //! wrapped in `Tracked`, which records "being polled" and "woken, not yet polled" (through a
 //! wrapped `Waker`). The runtime is single-threaded with ONE blocking thread, so a no-op
 //! `spawn_blocking` probe completing means every `tokio::fs` operation queued before it has
-//! completed (and issued its wake). `settle()` = no task polling or woken, probe done, still no
-//! task polling or woken, and no poll happened in between. After `settle()` the server can make no
+//! completed (and issued its wake). `settle()` = read the poll counter, no task polling or woken,
+//! probe done, still no task polling or woken, and the poll counter unchanged — twice in a row. After `settle()` the server can make no
 //! further step until the client acts, so each client action has a deterministic effect.
 //!
 //! Every wait has a deadline; a wait that times out returns `LsError::Timeout` and marks the
@@ -438,9 +438,21 @@ impl LsSession {
         if let Some(e) = &self.broken {
             return Err(e.clone());
         }
+        let mut clean_rounds = 0;
         loop {
             self.wait_quiet(t0, "idle")?;
+            // ORDER MATTERS: the poll counter is read BEFORE quietness is (re)checked. A poll that
+            // began before this read has either ended by the check below — then every file operation
+            // it queued precedes the probe in the single blocking thread's FIFO — or is still running
+            // (not quiet). A poll that begins after this read changes the counter. (Reading the
+            // counter after the check left a window: a task woken by a finishing file operation
+            // between check and read could queue its next file operation BEHIND the probe and be
+            // taken for idle — observed as a rare, unreproducible disagreement.)
             let e0 = self.shared.epoch.load(SeqCst);
+            if !self.shared.quiet() {
+                clean_rounds = 0;
+                continue;
+            }
             // every blocking (tokio::fs) operation queued so far has completed when this returns
             let (ptx, prx) = std::sync::mpsc::channel::<()>();
             self.host.handle.spawn_blocking(move || {
@@ -453,8 +465,15 @@ impl LsSession {
             let q = self.shared.quiet();
             let e1 = self.shared.epoch.load(SeqCst);
             if !(q && e1 == e0) {
+                clean_rounds = 0;
                 continue;
             }
+            // two consecutive clean rounds (belt and braces; a round costs a few microseconds)
+            clean_rounds += 1;
+            if clean_rounds < 2 {
+                continue;
+            }
+            clean_rounds = 0;
             let pm: Option<String> = self.shared.panic_msg.lock().unwrap().clone();
             if let Some(m) = pm {
                 self.drain();
